@@ -341,7 +341,7 @@ func genC07(r *vh.Runner) {
 		})
 	}
 	genC07Concurrent(r)
-	n := r.Pick(320, 16000)
+	n := r.Pick(320, 8000)
 	for i := 0; i < n; i++ {
 		r.Case(fmt.Sprintf("grant-history/%d", i), map[string]any{"i": i}, func(c *vh.Case) {
 			rng := vh.NewRand(r.Seed, "c07-hist", i)
